@@ -5,6 +5,7 @@ M1 effect analysis: no public array function / _apply / _prox writes through an 
 M2 purity: no self.* writes and no RNG inside _apply / _prox; H / N write only their cache slot.
 M3 C-linearity typing of every value returned by a Linop._apply.
 M4 determinism = M2 + M1 on captured arrays.
+M5 no uninitialised buffer (empty / empty_like) can reach a returned value unless it is provably overwritten in full.
 Not decided: bit-level determinism of numpy itself.
 """
 import ast
@@ -74,6 +75,9 @@ def check(run, M, tier):
     run.rule("M1", "no write through an alias of an array parameter or captured array in any public array function, "
                    "_apply or _prox (interprocedural may-alias + mutation summaries; documented out-parameters excepted)")
     run.rule("M2", "_apply/_prox assign no self.* attribute and reach no numpy.random call; Linop.H/N write only their cache slot")
+    run.rule("M5", "an array allocated with empty/empty_like is either used only for its shape, overwritten in full (buf[...] = / buf[:] = / copyto(buf, .)) "
+                   "before use, or allocated at a site whose full coverage is established elsewhere (table with reasons); otherwise uninitialised memory can "
+                   "reach an output and equal inputs need not give equal outputs")
     run.rule("M3", "every value returned by a Linop._apply is C-linear in the input under the {Z,K,L,A,N} typing")
     eff = Effects(M)
     run.count("effect_fixpoint_rounds", eff.rounds)
@@ -188,10 +192,108 @@ def check(run, M, tier):
                 run.bad("M3", f.qual, f.loc(node), "%s returns a value that is %s in the input: `%s`" % (f.qual, what, _short(node)), stmt=node)
     run.floor("M3", 38, n_ret, "return statements of Linop._apply")
 
+    # ---------------------------------------------------------------- M5
+    _m5(run, M)
+
     # ---------------------------------------------------------------- controls
     _controls(run, M)
     run.info("observation (outside the property statement): Communicator.allreduce and AllReduce(in_place=True) update their "
              "argument in place by documented design")
+
+
+M5_SCOPE = ["sigpy.linop", "sigpy.prox", "sigpy.util", "sigpy.fourier", "sigpy.interp", "sigpy.conv", "sigpy.block", "sigpy.wavelet", "sigpy.thresh", "sigpy.mri.util"]
+M5_COVERED = {
+    "sigpy.linop._stack_output": "the buffer is filled by Vstack/Diag._apply through the slices [0:i1], [i1:i2], ..., [i_last:] that partition the stacking axis "
+                                 "(C03 rules G2 and G5 establish the store list and the running-sum indices)",
+}
+CTL_M5 = """
+def ctl_bad(input, oshape, sl):
+    output = np.empty(oshape, dtype=input.dtype)
+    output[sl] = input
+    return output
+
+def ctl_ok(input, oshape):
+    output = np.empty(oshape, dtype=input.dtype)
+    output[...] = input
+    n = np.empty(oshape)[0].shape
+    return output
+"""
+
+
+def _empty_sites(fnode, is_empty):
+    """(call node, verdict, detail) for each empty/empty_like call in a function body"""
+    parents = {}
+    for n in ast.walk(fnode):
+        for c in ast.iter_child_nodes(n):
+            parents[c] = n
+    out = []
+    for n in ast.walk(fnode):
+        if not (isinstance(n, ast.Call) and is_empty(n)):
+            continue
+        # used only for its shape: np.empty(s)[idx].shape / .ndim / len(...)
+        p = parents.get(n)
+        while isinstance(p, ast.Subscript) and p.value is not None:
+            nxt = parents.get(p)
+            if isinstance(nxt, ast.Attribute) and nxt.attr in ("shape", "ndim", "size"):
+                p = nxt
+                break
+            p = nxt
+        if isinstance(p, ast.Attribute) and p.attr in ("shape", "ndim", "size", "dtype"):
+            out.append((n, "shape-only", "only the shape of the buffer is used"))
+            continue
+        p = parents.get(n)
+        if isinstance(p, ast.Return):
+            out.append((n, "returned", "the uninitialised buffer is returned to the caller"))
+            continue
+        name = None
+        if isinstance(p, ast.Assign) and len(p.targets) == 1 and isinstance(p.targets[0], ast.Name):
+            name = p.targets[0].id
+        if name is None:
+            out.append((n, "unknown", "the buffer is not bound to a plain local"))
+            continue
+        full = False
+        for m in ast.walk(fnode):
+            if getattr(m, "lineno", 0) < p.lineno:
+                continue
+            if isinstance(m, ast.Assign):
+                for t in m.targets:
+                    if isinstance(t, ast.Subscript) and isinstance(t.value, ast.Name) and t.value.id == name:
+                        sl = t.slice
+                        if (isinstance(sl, ast.Constant) and sl.value is Ellipsis) or (isinstance(sl, ast.Slice) and sl.lower is None and sl.upper is None and sl.step is None):
+                            full = True
+            if isinstance(m, ast.Call) and unparse(m.func).split(".")[-1] == "copyto" and m.args and isinstance(m.args[0], ast.Name) and m.args[0].id == name:
+                full = True
+        out.append((n, "full" if full else "partial", "bound to `%s`" % name))
+    return out
+
+
+def _m5(run, M):
+    n_sites = 0
+    for q, f in sorted(M.funcs.items()):
+        if f.mod.name not in M5_SCOPE:
+            continue
+
+        def is_empty(c, f=f):
+            tgt = M.resolve_call(f, c)
+            return tgt[0] == "ext" and tgt[1].split(".")[-1] in ("empty", "empty_like") and tgt[1].startswith("numpy")
+        own = [x for x in _empty_sites(f.node, is_empty) if not any(x[0] in list(ast.walk(g.node)) for g in M.funcs.values() if g.parent is f)]
+        for call, verdict, detail in own:
+            n_sites += 1
+            if verdict in ("shape-only", "full"):
+                run.ok("M5", q, "`%s`: %s" % (_short(call), detail if verdict == "shape-only" else "overwritten in full before use"), f.loc(call))
+            elif q in M5_COVERED:
+                run.ok("M5", q, "`%s`: %s" % (_short(call), M5_COVERED[q]), f.loc(call))
+            else:
+                run.bad("M5", q, f.loc(call), "%s allocates `%s` (%s) and never overwrites it in full: elements the later stores do not cover keep whatever the allocator "
+                        "left there, so the result is not a function of the arguments (repeated application to equal inputs may differ)" % (q, _short(call), detail), stmt=call)
+    run.floor("M5", 2, n_sites, "empty/empty_like allocations in the analysed modules")
+    tree = ast.parse(CTL_M5)
+    res = {}
+    for fn in tree.body:
+        is_e = lambda c: isinstance(c.func, ast.Attribute) and c.func.attr in ("empty", "empty_like")
+        res[fn.name] = [v for _, v, _ in _empty_sites(fn, is_e)]
+    run.control("M5", "empty buffer with a computed-slice store", True, "partial" in res["ctl_bad"])
+    run.control("M5", "empty buffer overwritten with [...] / shape-only use", False, any(v not in ("full", "shape-only") for v in res["ctl_ok"]))
 
 
 def _short(node):
